@@ -122,7 +122,7 @@ def run_obligation(name, tier="quick", seed=0, do_diff=True):
     rec = {"name": name, "props": ob.props, "kind": ob.kind, "funcs": ob.funcs, "status": None, "clauses": {},
            "paths": 0, "vcs": 0, "covers": 0, "solver_s": 0.0, "backends": {}, "notes": [], "diff": None,
            "failures": [], "uses": list(ob.uses)}
-    timeout_ms = ob.timeout_ms or (20000 if tier == "quick" else 120000)
+    timeout_ms = ob.timeout_ms or (30000 if tier == "quick" else 120000)
     try:
         ip = new_interp()
         E = Engine(ip, max_paths=ob.max_paths)
